@@ -286,6 +286,27 @@ def _solo(plan, j, poison):
     return outcome_digest(out), core.digest(w), (core.brief(out[1]) if out[0] != "abort" else ""), seams.ALLOC["fired"]
 
 
+def _reexec_all(plan, used, poison):
+    """Executed in a fork of the run process in its CURRENT library / interpreter state: every op alone on
+    a fresh pool.  -> {j: (outcome digest, brief)}"""
+    seams.set_poison(poison)
+    seams.WARN.install()
+    sys_trace_off()
+    fns = ops.public_functions()
+    out = {}
+    for j in used:
+        pool = build_pool(plan["specs"])
+        o = call_op(plan["ops"][j], pool, fns)
+        out[j] = (outcome_digest(o), core.brief(o[1]) if o[0] != "abort" else "")
+    return out
+
+
+def sys_trace_off():
+    import sys
+
+    sys.settrace(None)
+
+
 def other_poison(p):
     i = seams.POISONS.index(p)
     return seams.POISONS[(i + 2) % len(seams.POISONS)]
@@ -339,7 +360,7 @@ def execute(plan, want_logs=False):
     actors = plan["actors"]
     threaded = len(actors) > 1
     state = {"pos": {a: -1 for a in actors}, "evt": {a: 0 for a in actors}, "aborted": {a: False for a in actors},
-             "inflight": {}, "skip_i3": set(), "prev_fn": None, "touched": set(), "switch_points": set(), "abort_points": set()}
+             "inflight": {}, "skip_i3": set(), "reexec_left": 8, "prev_fn": None, "touched": set(), "switch_points": set(), "abort_points": set()}
     abort_at = {}
     for ab in plan["aborts"]:
         abort_at.setdefault((ab["actor"], ab["pos"]), ab["event"])
@@ -390,14 +411,37 @@ def execute(plan, want_logs=False):
                     pool[key[0]][key[1]] = P.build(plan["specs"][key[0]])[key[1]]
                     state["skip_i3"].update(state["inflight"].keys())
                     stats.inc("pool_repairs")
-        # I2 library state
+        # I2 library / process-global state.  A change is not a violation by itself (a correctly keyed cache
+        # changes module state and no result): it is one iff it is OBSERVABLE -- every op of the plan is
+        # re-executed alone, on a fresh pool, in a fork of the process as it is NOW, and compared with its
+        # pristine solo reference.
         ls = lib_state()
         if ls != ls0:
-            for key in sorted(set(ls) | set(ls0)):
-                if ls.get(key) != ls0.get(key):
-                    report("LIB_STATE_MUTATED", ("mir_eval." + key) if not key.startswith("<") else key,
-                           "after %s(%s): %s changed" % (fn, _argstr(opd), ("library attribute mir_eval." + key) if not key.startswith("<") else ("process-global state " + key)))
-                    ls0[key] = ls.get(key)
+            changed = [key for key in sorted(set(ls) | set(ls0)) if ls.get(key) != ls0.get(key)]
+            for key in changed:
+                ls0[key] = ls.get(key)
+                stats.see("lib_state_changes", key)
+            stats.inc("probe.library_state_changed")
+            if state["reexec_left"] > 0:
+                state["reexec_left"] -= 1
+                st, res = core.fork_call(_reexec_all, (plan, used, pB), timeout=120.0)
+                stats.inc("reexec_probes")
+                observable = False
+                if st == "ok":
+                    for j2, (d2, b2) in res.items():
+                        if j2 in uninit or d2 == solo[j2][0]:
+                            continue
+                        observable = True
+                        f2 = plan["ops"][j2]["fn"]
+                        names = ", ".join((("mir_eval." + k) if not k.startswith("<") else k) for k in changed[:3])
+                        report("HISTORY_DEPENDENT", f2, "%s(%s) changed %s; after that, %s(%s) alone on fresh arguments -> %s %s ; in a pristine process -> %s %s" % (
+                            fn, _argstr(opd), names, f2, _argstr(plan["ops"][j2]), d2, b2, solo[j2][0], solo[j2][2]))
+                        for k in changed:
+                            report("LIB_STATE_MUTATED", ("mir_eval." + k) if not k.startswith("<") else k,
+                                   "%s(%s) changed %s and the change is observable: %s then returns %s instead of %s" % (
+                                       fn, _argstr(opd), k, f2, b2, solo[j2][2]))
+                if not observable:
+                    stats.inc("probe.library_state_change_not_observable")
         # I3 result vs solo reference
         if me in state["skip_i3"]:
             state["skip_i3"].discard(me)
@@ -412,8 +456,8 @@ def execute(plan, want_logs=False):
                 report(cls, fn, "%s(%s): in the run (heap poison %s, after %s) -> %s %s ; alone (poison %s) -> %s %s" % (
                     fn, _argstr(opd), plan["poison"], state["prev_fn"], od, core.brief(out[1]), pB, sd, sbrief))
             elif wd != sw:
-                report("WARNINGS_DIFFER", fn, "%s(%s): warnings in the run %s differ from alone" % (
-                    fn, _argstr(opd), [(c, m[:60]) for c, m, _ in warns]))
+                # observation only: warnings are not results (a library is free to warn once per process)
+                stats.inc("probe.warnings_differ_from_solo")
             stats.inc("i3_checked")
             shares = any((r.b, r.f) in state["touched"] for r in refs_of(opd))
             if shares and state["prev_fn"] is not None:
